@@ -155,6 +155,81 @@ func c19ExpiryCheck(l *explore.Local, _ struct{}, c c19Expiry) *explore.Fail {
 	return nil
 }
 
+// c19Sweep: channel 1 is triggered with its sweep unit programmed, NR10 is optionally rewritten while it plays (without
+// a new trigger: the unit's enabled flag is latched by the trigger), and the status bit is compared with the sweep
+// model after every machine cycle until the horizon: the bit must drop in the cycle of the overflowing calculation
+// and not before.
+type c19Sweep struct {
+	NR10 uint8 `json:"nr10"`
+	Freq int   `json:"freq"`
+	Skew int   `json:"skew"` // machine cycles between the power cycle and the trigger
+	// Rewrites: NR10 written again After sweep clocks (8,192 machine cycles each, plus 5) after the previous event
+	Rewrites []c19Rewrite `json:"rewrites,omitempty"`
+	Clocks   int          `json:"clocks"` // horizon after the last event, in sweep clocks
+	// Len: t+1 when the channel is also running a length counter (length data t, enabled at the trigger), so that both
+	// ways of switching off race
+	Len int `json:"len,omitempty"`
+}
+
+type c19Rewrite struct {
+	After int   `json:"after"`
+	V     uint8 `json:"v"`
+}
+
+func c19SweepCheck(l *explore.Local, _ struct{}, c c19Sweep) *explore.Fail {
+	p := newAPUPair()
+	ctx := fmt.Sprintf("sweep run NR10=%02x f=%03x skew=%d", c.NR10, c.Freq, c.Skew)
+	w := func(a uint16, v uint8) *explore.Fail {
+		p.write(a, v)
+		return p.compareNR52(ctx)
+	}
+	ctl := uint8(0x80 | c.Freq>>8)
+	pre := []apuEv{{K: "w", A: 0xff26, V: 0x00}, {K: "w", A: 0xff26, V: 0x80}, {K: "w", A: 0xff12, V: 0xf0}, {K: "w", A: 0xff11, V: 0x00}}
+	if c.Len > 0 {
+		pre[3].V = uint8(c.Len - 1)
+		ctl |= 0x40
+	}
+	for _, ev := range pre {
+		if f := w(ev.A, ev.V); f != nil {
+			return f
+		}
+	}
+	if f := p.tick(c.Skew, ctx); f != nil {
+		return f
+	}
+	for _, ev := range []apuEv{{A: 0xff10, V: c.NR10}, {A: 0xff13, V: uint8(c.Freq)}, {A: 0xff14, V: ctl}} {
+		if f := w(ev.A, ev.V); f != nil {
+			return f
+		}
+	}
+	if p.mod.Ch[0].Unspec {
+		return explore.Failf("harness: the sweep run did not start with a determined channel", "%s", ctx)
+	}
+	for _, rw := range c.Rewrites {
+		if f := p.tick(rw.After*8192+5, ctx); f != nil {
+			return f
+		}
+		ctx += fmt.Sprintf(", NR10=%02x %d sweep clocks later", rw.V, rw.After)
+		if f := w(0xff10, rw.V); f != nil {
+			return f
+		}
+	}
+	if f := p.tick(c.Clocks*8192, ctx); f != nil {
+		return f
+	}
+	l.Eval(1)
+	l.Trans(p.cycles)
+	o := uint64(p.mod.SwShadow)<<8 | uint64(p.mod.SwTimer)<<4
+	if p.mod.Ch[0].On {
+		o |= 1
+	}
+	if p.mod.Ch[0].Unspec {
+		o |= 2
+	}
+	l.Outcome(o)
+	return nil
+}
+
 func init() {
 	for ch := 0; ch < 4; ch++ {
 		apuAlphabets[fmt.Sprintf("c19-ch%d", ch+1)] = c19Alphabet(ch)
@@ -162,7 +237,8 @@ func init() {
 	register("C19", "model_checking", func(c *Ctx) {
 		if c.R != nil {
 			c.R.Rule = "per channel: every sequence up to the depth bound over {length loads (4 values), DAC on/off, NRx4 in {00,40,80,C0}, NR10 in {00,11} (channel 1, frequency 7FF: the sweep-overflow-at-trigger path), NR52 off/on, time: 1 cycle, to 1 cycle before the next 512 Hz step, 2 cycles, 2,048 cycles} with at most 3 writes between time advances; NR52 is compared with the reference length/status model after every event and after EVERY machine cycle; plus complete expiry runs for (channel, length data t, first/second half of the frame-sequencer period, length enabled at / after the trigger, 3 skews) checked cycle by cycle until the channel switches off, and re-trigger runs with the counter at 0 (reload to 64/256, minus the extra clock in the first half)"
-			c.R.Assumptions = []string{"frame-sequencer step times are observed from the implementation (phase is a convention) and checked to be exactly 2,048 machine cycles apart; the step index is the model's own (0 after power-on)", "start-up register/channel state is not asserted", "don't-cares: adding sweeps that do not overflow at trigger, leaving negate mode, re-trigger with the counter at its maximum without reload, wave-RAM access while channel 3 plays"}
+			c.R.Rule += "; plus channel 1's sweep over time: every NR10 value x 10 frequencies triggered and run for 24 sweep clocks, NR10 rewritten while playing (park / revive without a new trigger), overflow racing length expiry; the status bit must drop in the machine cycle of the overflowing calculation of the reference sweep unit (shadow frequency, timer reloaded with the period or 8, enabled flag latched at the trigger) and not before"
+			c.R.Assumptions = []string{"frame-sequencer step times are observed from the implementation (phase is a convention) and checked to be exactly 2,048 machine cycles apart; the step index is the model's own (0 after power-on)", "start-up register/channel state is not asserted", "don't-cares: leaving negate mode after a calculation in it, re-trigger with the counter at its maximum without reload, wave-RAM access while channel 3 plays"}
 		}
 		depth := 4
 		if c.Thorough() {
@@ -180,6 +256,69 @@ func init() {
 					}
 				}
 			}, func() struct{} { return struct{}{} }, apuDFS)
+		explore.Product(c.R, "sweep-over-time", explore.PartOpt{Bound: "24 sweep clocks (0.19 s of emulated time) after the trigger, 20 after the last NR10 rewrite; NR52 compared after every machine cycle", Domain: "every NR10 value x 10 frequencies x 3 trigger phases; NR10 rewritten while playing: park / revive sequences (thorough: every value rewritten by every value); sweep overflow racing length expiry"},
+			func(yield func(c19Sweep) bool) {
+				freqs := []int{0x000, 0x001, 0x200, 0x3ff, 0x400, 0x555, 0x6ff, 0x7c0, 0x7fe, 0x7ff}
+				for v := 0; v < 128; v++ {
+					for _, f := range freqs {
+						for _, skew := range []int{0, 4097, 3*2048 - 1} {
+							if skew != 0 && !c.Thorough() && v%16 != 1 && v%16 != 9 && v>>4 != 0 {
+								continue
+							}
+							if !yield(c19Sweep{NR10: uint8(v), Freq: f, Skew: skew, Clocks: 24}) {
+								return
+							}
+						}
+					}
+				}
+				// park and revive: the unit is programmed to do nothing for a while (period 0 and/or shift 0), then given work
+				// again, all without a new trigger
+				first := []uint8{0x11, 0x17, 0x21, 0x71, 0x19, 0x10, 0x01, 0x00}
+				park := []uint8{0x00, 0x08, 0x10, 0x70, 0x07}
+				revive := []uint8{0x11, 0x21, 0x71, 0x01, 0x10}
+				for _, a := range first {
+					for _, b := range park {
+						for _, k := range []int{0, 1, 2, 9} {
+							for _, d := range revive {
+								for _, f := range []int{0x400, 0x700, 0x7c0} {
+									if !yield(c19Sweep{NR10: a, Freq: f, Rewrites: []c19Rewrite{{1, b}, {k, d}}, Clocks: 20}) {
+										return
+									}
+								}
+							}
+						}
+					}
+				}
+				// one rewrite: every value by every value (quick: a reduced set of new values)
+				for a := 0; a < 128; a++ {
+					for b := 0; b < 128; b++ {
+						if !c.Thorough() && !(b>>4 == 0 || b>>4 == 1 || b>>4 == 7) {
+							continue
+						}
+						if !c.Thorough() && !(a%8 <= 1 || a%8 == 7) {
+							continue
+						}
+						for _, k := range []int{1, 2} {
+							if !c.Thorough() && k == 2 {
+								continue
+							}
+							if !yield(c19Sweep{NR10: uint8(a), Freq: 0x600, Rewrites: []c19Rewrite{{k, uint8(b)}}, Clocks: 12}) {
+								return
+							}
+						}
+					}
+				}
+				// overflow racing the length counter
+				for _, t := range []int{60, 61, 62, 63} {
+					for _, v := range []uint8{0x11, 0x12, 0x21, 0x10} {
+						for _, f := range []int{0x400, 0x600, 0x7c0} {
+							if !yield(c19Sweep{NR10: v, Freq: f, Len: t + 1, Clocks: 12}) {
+								return
+							}
+						}
+					}
+				}
+			}, func() struct{} { return struct{}{} }, c19SweepCheck)
 		explore.Product(c.R, "expiry-runs", explore.PartOpt{Bound: "run to expiry, every cycle compared", Domain: "channel x t x half x enable mode x skew {0,1,700, and 1 or 2 cycles before the following frame-sequencer step}; length data written after / before / during the power-off that precedes the run"},
 			func(yield func(c19Expiry) bool) {
 				for ch := 0; ch < 4; ch++ {
